@@ -281,7 +281,7 @@ CHECKS = {
              "ops, infos and coroutine names equal except that literal's parameter(s), which equal the edited mark; the listing of the new text changes in that entry only. "
              "Known finding (1 kind): a coordinate spelled -.5 parses but makes the listing (and the compiler) raise ValueError.",
         note=COMMON_NOTE + "ANTLR token positions (ctx.start/ctx.stop line and column, counted in code points, only \\n ends a line) are trusted and compared with Lean posOf on every "
-             "token of the generated texts; the harness printer's own position bookkeeping is trusted. Edited marks use offsets 0/2 and names without quotes or backslashes "
+             "token of the generated texts; the harness printer's own position bookkeeping is trusted. Edited marks use offsets 0/2 and names the printed form reproduces (predicate printable_name = C04 guard: no single quote, line break or form feed, no backslash directly before a quote or the letter n, no unpaired backslash at the end; backslash + ordinary character and doubled backslashes ARE used; half of the edits keep the literal's own name and change coordinates only); names with a quote or a backslash before quote/n/end stay excluded "
              "(outside that the printed form itself is lossy: C04 known findings). The compile-time source map's own position-mark spans (ArgListCompileHandler uses the span of the "
              "whole argument list) are C08's subject, not this property's."),
     "C05": dict(
